@@ -241,7 +241,11 @@ func (w *World) BuildTx(t *Tx, forCheck bool) *BuiltTx {
 		}
 		signers = []Addr{grantee}
 	case WrapGov:
-		gm, proposer, err := w.govWrap(msgs)
+		veto := len(t.Ops) > 0 && t.Ops[0].Flag
+		if veto {
+			w.Class("gov.vetoed-proposal")
+		}
+		gm, proposer, err := w.govWrap(msgs, veto)
 		if err != nil {
 			bt.BuildErr = err
 			return bt
